@@ -262,7 +262,8 @@ class C05(Prop):
     def extra_checks(self, ctx):
         out = []
         rng = ctx['rng']
-        streams = [[m] for m in NASTY] + [[rng.choice(NASTY + cc.MALFORMED) for _ in range(3)] for _ in range(10 if ctx['tier'] == 'quick' else 120)]
+        # (blank lines, lone CR, CRLF-terminated junk: what a framer-level change trips over)
+        streams = [[b''], [b'\r'], [b'', b''], [b'\r', b''], [b'{}\r'], [b' '], [b'', b'\xff'], [b'[]\r', b'']] + [[m] for m in NASTY] + [[rng.choice(NASTY + cc.MALFORMED) for _ in range(3)] for _ in range(10 if ctx['tier'] == 'quick' else 120)]
         for msgs in streams:
             msgs = [m.replace(b'\n', b' ') for m in msgs]
             for p in (['v2'] if ctx['tier'] == 'quick' else ['v2', 'loose', 'auto', 'v1']):
